@@ -630,8 +630,13 @@ protected:
                          , png_size_t length
                          )
     {
-        static_cast<Device*>(png_get_io_ptr(png_ptr) )->read( data
-                                                            , length );
+        // libpng has no other way to learn about a short read: without the error it parses its stale buffer
+        // again and again (a file that ends inside an ancillary chunk header never returned)
+        if( static_cast<Device*>(png_get_io_ptr(png_ptr) )->read( data
+                                                               , length ) != length )
+        {
+            png_error( png_ptr, "unexpected end of file" );
+        }
     }
 
     static void flush( png_structp png_ptr )
